@@ -108,6 +108,9 @@ def install(reg):
         def fn(*idx, _xs=[x.fn for x in xs], _d=d):
             idx = list(idx)
             j = idx.pop(_d)
+            jl = V.simp(lift(j))
+            if z3.is_int_value(jl) and 0 <= jl.as_long() < len(_xs):
+                return _xs[jl.as_long()](*idx)  # concrete position along the stacked axis: select directly
             r = _xs[-1](*idx)
             for q in range(len(_xs) - 2, -1, -1):
                 r = ite(j == q, _xs[q](*idx), r)
